@@ -374,6 +374,60 @@ func (c *Ctx) liveSet(fi *load.FuncInfo, fn *gf.Fn, live types.Object) {
 			}
 		}
 	}
+	truncFI, truncRevs := fi, revs
+	// the live set may be built by a small helper: `live := liveRevisionNames(pods, current, update)`. The
+	// helper is then the place where the rules below are checked, with the truncation's revision and pod
+	// parameters mapped to the helper's through the call's arguments.
+	var builderCall *ast.CallExpr
+	nDefs := 0
+	ast.Inspect(body, func(n ast.Node) bool {
+		if as, ok := n.(*ast.AssignStmt); ok && len(as.Lhs) == 1 && len(as.Rhs) == 1 {
+			if id, ok := as.Lhs[0].(*ast.Ident); ok && info.ObjectOf(id) == live {
+				nDefs++
+				builderCall, _ = ast.Unparen(as.Rhs[0]).(*ast.CallExpr)
+			}
+		}
+		return true
+	})
+	if nDefs == 1 && builderCall != nil {
+		if h := gf.StaticCallee(info, builderCall); h != nil {
+			hfi := c.P.FuncInfoOf(h)
+			if hfi != nil && hfi.Pkg == fi.Pkg && c.liftedAway(hfi) {
+				var hparams []*ast.Ident
+				for _, f := range hfi.Decl.Type.Params.List {
+					hparams = append(hparams, f.Names...)
+				}
+				mapped := func(p *ast.Ident) *ast.Ident {
+					for k, a := range builderCall.Args {
+						if id, ok := ast.Unparen(a).(*ast.Ident); ok && p != nil && info.ObjectOf(id) == info.ObjectOf(p) && k < len(hparams) {
+							return hparams[k]
+						}
+					}
+					return nil
+				}
+				// the returned map variable
+				var hlive types.Object
+				ast.Inspect(hfi.Decl.Body, func(n ast.Node) bool {
+					if ret, ok := n.(*ast.ReturnStmt); ok && len(ret.Results) == 1 {
+						if id, ok := ast.Unparen(ret.Results[0]).(*ast.Ident); ok {
+							hlive = info.ObjectOf(id)
+						}
+					}
+					return true
+				})
+				if hlive != nil {
+					var hrevs []*ast.Ident
+					for _, rp := range revs {
+						if m := mapped(rp); m != nil {
+							hrevs = append(hrevs, m)
+						}
+					}
+					fi, fn, body, fname, live = hfi, c.E.FnOf(hfi), hfi.Decl.Body, hfi.Obj.Name(), hlive
+					revs, podsParam = hrevs, mapped(podsParam)
+				}
+			}
+		}
+	}
 	nLiveParams := 0
 	// initialisation with both revision names
 	var lit *ast.CompositeLit
@@ -410,7 +464,7 @@ func (c *Ctx) liveSet(fi *load.FuncInfo, fn *gf.Fn, live types.Object) {
 	// set's stored status is the previous reconcile's choice
 	c.Check(nLiveParams >= 2, "C13.1-live-set-seeded-with-computed-revisions", fname+": ControllerRevision parameters marked live", fi.Decl.Pos(),
 		"the truncation receives the current and the update revision and marks both live", "the truncation does not receive (or does not mark live) both the current and the update revision computed by this reconcile")
-	c.truncateCallers(fi, revs)
+	c.truncateCallers(truncFI, truncRevs)
 	// every pod's revision label, unconditionally, over all pods
 	okPods := false
 	var getRev *types.Func
